@@ -164,6 +164,13 @@ class _Canon:
       return {'#': n, 'dc': type(x).__qualname__,
               'f': [[f.name, self.go(getattr(x, f.name, None))]
                     for f in dataclasses.fields(x)]}
+    if getattr(x, '_fsim_plain', False):
+      n, seen = self._number(x)
+      if seen:
+        return {'ref': n}
+      return {'#': n, 'plain': [[k, self.go(v)] for k, v in x.__dict__.items()]}
+    if isinstance(x, stubmod.ConstObj):
+      return {'const': x is stubmod.CONST_OBJ}
     if isinstance(x, slice):
       return {'slice': [self.go(x.start), self.go(x.stop), self.go(x.step)]}
     n, seen = self._number(x)
